@@ -136,9 +136,9 @@ def _header(deadline, rng, tier):
 # property -> [(suite name, function, what is not under contract, stated bound)]
 SUITES = {
     'C04': [('label_scoping', _labels, 'surfacing of E400/E420 through the resolver',
-             'random function bodies: <= 12 statements, 2 label names, nesting depth <= 3; gotos, conditional gotos, labels, blocks, if-blocks; each through the scoper alone (counts of E400/E420) and through the whole pipeline (E400/E420 reported exactly when expected, no stage fails on a poisoned statement)')],
+             'random function bodies: <= 12 statements, 2 label names, nesting depth <= 3; gotos, conditional gotos, labels, blocks, if-blocks, if/else with two braced branches; each through the scoper alone (counts of E400/E420) and through the whole pipeline (E400/E420 reported exactly when expected, no stage fails on a poisoned statement)')],
     'C05': [('scoping_and_skipped_declarations', _scope, 'the tree walk of variable_references.rs (the Analyzable impls: where and in which order the scope-stack and pruning functions are called), and the surfacing of the errors through the resolver',
-             '14 fixed programs; 400 bodies of the family (goto placement, incl. from a block with a local of the same name, x declaration before/after the goto x what stands between label and use x where the use stands); every body of <= 4 (thorough: <= 6) items over {declare a, declare b, use a, use b, conditional goto, label, open block, close block} with valid jumps (947 / 30806 bodies, empty blocks included); 600 (thorough: 6000) random function bodies: <= 24 statements, nesting depth <= 3, 8 variable names, 2 parameters, 2 constants; declarations, assignments, (empty) blocks, if/else, conditional gotos, closing gotos, labels, loops; verdict by an independent definitely-declared dataflow')],
+             '18 fixed programs (4 of them with function heads without body); 400 bodies of the family (goto placement, incl. from a block with a local of the same name, x declaration before/after the goto x what stands between label and use x where the use stands); every body of <= 4 (thorough: <= 6) items over {declare a, declare b, use a, use b, conditional goto, label, open block, close block} with valid jumps (947 / 30806 bodies, empty blocks included); 600 (thorough: 6000) random function bodies: <= 24 statements, nesting depth <= 3, 8 variable names, 2 parameters, 2 constants; declarations, assignments, (empty) blocks, if/else, conditional gotos, closing gotos, labels, loops; verdict by an independent definitely-declared dataflow')],
     'C06': [('statement_placement', _placement, 'surfacing of E800/E801/E840 through the resolver',
              'random function bodies: <= 12 statements, nesting depth <= 3; loop, if/else with and without braces, goto, blocks, assignments incl. ones that another pass rejects (to a parameter, to a constant); each through the analyzer alone and through the whole pipeline (the counts of E840/E800/E801 REPORTED equal the counts by construction)'),
             ('lint_l1800', _l1800, 'the path from linter to reported lints; typer in between',
